@@ -76,6 +76,12 @@ class C13(Prop):
                    "bufs": sorted(set(rng.sample(grid, 3))), "L": rng.choice([7, 60])}
         yield {"gen": "memory", "kind": "memory", "n": 300_000 if tier == "quick" else 2_000_000, "buf": 1000,
                "seed": rng.randrange(10**6)}
+        # the same with long input lines (5000 columns) and with the whole record on ONE line: a chunk
+        # is still at most buffer-size residues, whatever the line width of the file
+        yield {"gen": "memory/wide-lines", "kind": "memory", "n": 300_000 if tier == "quick" else 2_000_000, "buf": 499,
+               "seed": rng.randrange(10**6), "width": 5000}
+        yield {"gen": "memory/unwrapped", "kind": "memory", "n": 300_000 if tier == "quick" else 2_000_000, "buf": 1000,
+               "seed": rng.randrange(10**6), "width": 0}
 
     # ---- implementation
     def run_impl(self, case):
@@ -127,7 +133,8 @@ class C13(Prop):
         r = random.Random(case["seed"])
         n, buf = case["n"], case["buf"]
         seq = "".join(r.choices("ACGT", k=n))
-        ctx = F.Ctx(self.pid, ">big\n" + "".join(seq[i : i + 60] + "\n" for i in range(0, n, 60)))
+        w = case.get("width", 60) or n
+        ctx = F.Ctx(self.pid, ">big\n" + "".join(seq[i : i + w] + "\n" for i in range(0, n, w)))
         del seq
         tracemalloc.start()
         idx, asm = index_fasta_file(ctx.path, buf)
@@ -229,7 +236,9 @@ class C13(Prop):
         buf = case["buf"]
         if obs["length"] != case["n"]:
             return f"indexed length {obs['length']} != {case['n']}"
-        if obs["index_peak"] > 8 * buf + 65536:
+        # while indexing, one input line may be held besides the buffer
+        line = case.get("width", 60) or case["n"]
+        if obs["index_peak"] > 8 * buf + 65536 + 4 * line:
             return f"indexing a {case['n']} bp record with buffer {buf} peaked at {obs['index_peak']} traced bytes"
         for label, p in obs["stream_peaks"].items():
             if p > 8 * buf + 32768:
